@@ -1,6 +1,6 @@
 from functools import partial
 
-from . import p_domains, p_history, p_hybrid, p_io, p_polygon, p_search
+from . import p_calendar, p_domains, p_history, p_hybrid, p_io, p_polygon, p_search
 
 REGISTRY = {
     "C01": partial(p_search.run, "C01"),
@@ -15,6 +15,7 @@ REGISTRY = {
     "C13": p_history.run,
     "C16": p_polygon.run_c16,
     "C17": p_io.run_c17,
+    "C19": p_calendar.run_c19,
     "C18": p_io.run_c18,
     "C04": p_polygon.run_c04,
 }
